@@ -136,7 +136,11 @@ func init() {
 			}
 		}
 		// equal adjusted exponents with the exponents more than 100000 apart: only a coefficient of 100000+ digits gets there
+		// (thorough tier only: each of them keeps one validator busy for minutes)
 		for _, dl := range []int64{0, 1} {
+			if !g.thorough() {
+				break
+			}
 			k := 100002
 			c := new(big.Int).Exp(big.NewInt(10), big.NewInt(int64(k)), nil)
 			c.Add(c, big.NewInt(dl))
